@@ -64,9 +64,16 @@ func typedPositions() []typedPos {
 		{name: "define-typed-strings", stmt: "var t []string = @@\nprint(len(t))", allowed: []string{"[]string"}},
 		{name: "define-untyped", stmt: "t := @@\nu := t", allowed: anyVal},
 		{name: "multi-assign-second", stmt: "vi, vs = 1, @@", allowed: []string{"string"}},
+		{name: "short-definition-existing-first", stmt: "vs, nw := @@, 1\nprint(vs, nw)", allowed: []string{"string"}},
+		{name: "short-definition-existing-second", stmt: "nw, vb := 1, @@\nprint(vb, nw)", allowed: []string{"bool"}},
 		{name: "compound-int", stmt: "vi += @@", allowed: []string{"int"}},
 		{name: "compound-string", stmt: "vs += @@", allowed: []string{"string"}},
 		{name: "compound-minus-int", stmt: "vi -= @@", allowed: []string{"int"}},
+		{name: "increment-operand", stmt: "@@++", allowed: []string{"int"}, varOnly: true},
+		{name: "decrement-operand", stmt: "@@--", allowed: []string{"int"}, varOnly: true},
+		{name: "for-increment-operand", stmt: "for k := 0; k < 1; @@++ {\n\tbreak\n}", allowed: []string{"int"}, varOnly: true},
+		{name: "compound-plus-target", stmt: "@@ += vi", allowed: []string{"int"}, varOnly: true},
+		{name: "compound-times-target", stmt: "@@ *= vi", allowed: []string{"int"}, varOnly: true},
 		{name: "return-depth0", stmt: "func r() int {\n\treturn @@\n}\nprint(r())", allowed: []string{"int"}, top: true},
 		{name: "return-depth1", stmt: "func r() int {\n\tif vb {\n\t\treturn @@\n\t}\n\treturn 1\n}\nprint(r())", allowed: []string{"int"}, top: true},
 		{name: "return-depth2", stmt: "func r() string {\n\tfor vb {\n\t\tif vb {\n\t\t\treturn @@\n\t\t}\n\t}\n\treturn \"a\"\n}\nprint(r())", allowed: []string{"string"}, top: true},
@@ -185,6 +192,9 @@ func CheckC06(r *Run) int {
 			offer = gosym.Concat(gosym.Conc("f"), gosym.ByteStr(fb), gosym.Conc("()"))
 			expected = B.False
 			for _, a := range p.allowed {
+				if p.varOnly {
+					break // the position needs a variable: no call is acceptable
+				}
 				switch a {
 				case "void":
 					expected = B.Or(expected, B.Eq(fb, B.BV('v', 8)))
